@@ -92,7 +92,12 @@ def gen(seed, labels, cohort_max=None):
     rng = rng_for(seed, "c02", *labels)
     if cohort_max == "overflow-band":
         # binomial coefficients cross the f64 range around 1030 chromosomes: C(1030, 515) is just above f64::MAX
-        ns = rng.choice([515, 516, 514, 538, 545, 600, 1000])
+        # one size per overflow-band shard (every fourth shard), so that each run visits all of them whatever the seed
+        try:
+            k_ = int(str(labels[0])[1:]) // 4
+        except ValueError:
+            k_ = rng.randrange(8)
+        ns = [515, 516, 514, 538, 545, 600, 1000, 530][k_ % 8]
         npops = 1
         nrec = 3
     elif cohort_max:
@@ -105,7 +110,7 @@ def gen(seed, labels, cohort_max=None):
         nrec = rng.choice([1, 2, 5, 10, 30, 80])
     samples = G.sample_names(rng, ns)
     smap = G.random_sample_map(rng, samples, npops=npops, subset=rng.random() < 0.5 and not cohort_max)
-    if cohort_max == "overflow-band" and rng.random() < 0.5:
+    if cohort_max == "overflow-band" and labels[-1] % 2 == 1:
         # two populations: each factor C(t_j, m_j) fits an f64 on its own, their product does not (a big cohort next to a small one)
         nb_ = rng.choice([480, 500, 505, 510])
         nsm_ = rng.randint(8, 24)
@@ -296,7 +301,8 @@ def shard(S, p):
     check_L1(S, [gen(seed, [p["name"], "L1", i]) for i in range(p["l1"])])
     check_C(S, [gen(seed, [p["name"], "C", i]) for i in range(p["c"])])
     if p["i"] % 4 == 3:
-        ob = [gen(seed, [p["name"], "overflow-band", 0], cohort_max="overflow-band")]
+        # one cohort in the single-population band and one in the two-population band
+        ob = [gen(seed, [p["name"], "overflow-band", 0], cohort_max="overflow-band"), gen(seed, [p["name"], "overflow-band", 1], cohort_max="overflow-band")]
         check_L1(S, ob)
         S.count("overflow_band_cohorts", len(ob))
     if p["cohort"]:
